@@ -565,6 +565,25 @@ func ruleREPORT(w *World, r *Report) {
 				r.ok("REPORT", key, w.ipos(a), "append dominated by the err==nil edge of the WriteFile of the same path")
 			}
 		}
+		// a return that a write may precede hands back the list, never nil: files written before a later
+		// failure (a failed double check after the loop) stay reported
+		nr := 0
+		for _, b := range fn.Blocks {
+			ret, ok := b.Instrs[len(b.Instrs)-1].(*ssa.Return)
+			if !ok || len(ret.Results) == 0 || !isNilConst(ret.Results[0]) {
+				continue
+			}
+			for _, s := range byFn[fn] {
+				if instrReaches(s.at(), ret) {
+					nr++
+					r.bad("REPORT", fmt.Sprintf("%s:nil-after-write#%d", name, nr-1), w.ipos(ret), "this return can follow a WriteFile but returns nil as the list of repaired paths: files that were written are not reported")
+					break
+				}
+			}
+		}
+		if nr == 0 {
+			r.ok("REPORT", name+":nil-after-write", w.pos(fn.Pos()), "no return reachable from a write drops the list of written paths")
+		}
 		// converse: success edge must reach an append before back-edge/return
 		for _, s := range byFn[fn] {
 			key := s.key() + ":success-reported"
